@@ -121,19 +121,42 @@ RULE = ("boundary set x boundary set of binary64 bit patterns, exhaustively (sig
         "underflow to zero, narrowing of such values), random programs of 5-12 steps; each program also with all "
         "arithmetic through the assigning operators, and a spread subset with the abnormal-exit preamble before the "
         "program and a failing / panicking format of the step's result (or a panicking comparator) after EVERY step "
-        "(families *-abnormal-exits; coverage counters trace_* in the evidence). Beside debug and "
+        "(families *-abnormal-exits; coverage counters trace_* in the evidence). LEAF KERNELS (op kern, "
+        "executor src/kern.rs; the asm blocks' options(nostack) / missing pure, nomem, preserves_flags / x87 stack "
+        "promises only matter once a block is INLINED into optimised user code): 20 `#[inline(never)]` functions without "
+        "any call, formatting, allocation or panic path (slices only iterated / zipped), taking their f64 inputs as "
+        "arguments, in which f80 locals stay alive - in release / lto in the RED ZONE below rsp - across conversions "
+        "from and to f64, relations, min, max, abs, neg inside loops: line (count of a*x+b*y+c > 0), recur (acc = "
+        "acc*a + k*b, count of acc > lim), dot, horner, runsum (invariant factor and limit), limit (if-chain < == >), "
+        "minmax (scan), absneg, tof64 (f64 / SSE arithmetic and comparisons interleaved with f80 relations), mixed "
+        "(integer flags and f80 relations in one if-chain), inv2 / inv4 / inv5 / inv6 / inv8 (that many loop-invariant "
+        "f80 locals; eight fill the red zone), carried3 (three loop-carried values), pcmp, convonly (conversions only, "
+        "one live invariant), sides (line with extra integer state), flags (integer comparisons - selects, the carry of "
+        "a 128-bit sum - used on both sides of f80 relations / min within one basic block); results are counters, raw bytes, f64 bit patterns. "
+        "Each is computed a second time step by step (every primitive a call of the straight-line interpreter's "
+        "`apply` / `rel_code`, every value through black_box: non-leaf, ordinary frame) and must agree bit for bit "
+        "(internal check leaf-kernel-<kind>-differs-from-the-step-by-step-computation); the kernels run in a child "
+        "process with a watchdog, a kernel that kills it (an overwritten slice pointer / loop bound) is the internal check "
+        "leaf-kernel-<kind>-killed-the-process; and the plugin compares the integers with exact rational arithmetic "
+        "(each f80 operation rounded once to nearest-even at 64 bits; on family dyadic - k/2^j, |k| <= 64, j <= 4 - mostly "
+        "nothing is rounded and the counters are plain integer facts; family moderate: random 53-bit significands, "
+        "exponents within +-8, zeros; 0..24 elements, unequal slice lengths, limits equal to a scaled input); the case's "
+        "Coq term is the Trace of mul/add/sub on its first two numbers. Beside debug and "
         "release (both Coq-checked) the executor is built with fat LTO + one codegen unit and run in a process that "
         "never calls f80_init: both must reproduce the debug observations (thorough: on 400000 more pairs, the "
         "routes taken in turn); non-trivial = both operands finite, non-zero, different")
 TRUSTED = ["executor harness/crates/c18 (calls rlib_f80 operators/methods, prints the 10 raw bytes of each result "
            "as (sign/exponent word, significand word), f64 results as bit patterns, the six relations of a pair of "
            "extended operands as one code lt+2le+4gt+8ge+16eq+32partial_cmp; interprets the straight-line programs; "
+           "runs the leaf kernels of src/kern.rs in a child process of itself and their step-by-step twins; "
            "its internal consistency checks compare entry points of the crate with each other and can only turn an "
            "observation line into an `X` line that fails both Coq checks; src/hidden.rs reads the x87 control / status "
            "/ tag words and MXCSR with fnstcw / fnstsw / fnstenv+fldenv / stmxcsr and, AFTER a case has been reported, "
            "puts the main thread back into its start-up state with fninit / fldcw / ldmxcsr)",
            "checks/c18.py (case generator, Coq term printer; in the extended-operand group a raw that repeats an "
-           "operand raw word for word is printed as a back-reference, resolved by Corr.v's OBS/pick)",
+           "operand raw word for word is printed as a back-reference, resolved by Corr.v's OBS/pick; kern_expected: "
+           "the leaf kernels once more over Fractions with round-to-nearest-even at 64 / 53 bits, compared with the "
+           "executor's integers in Python - a mismatch turns the case into a term that fails both Coq checks)",
            "x87 instructions are modelled, not verified: IEEE semantics at (prec 64, emax 16384), control word "
            "0x37F (extended precision, round to nearest even); the batch lemmas compare the hardware's raw results "
            "with the model bit for bit on every run"]
@@ -145,6 +168,13 @@ ASSUMPTIONS = ["operands of the arithmetic are images of binary64 values (as in 
                "sink receives a prefix of it, and formatting - completed, failed or panicking - leaves the hidden "
                "floating-point state and all later results unchanged); build configurations "
                "other than dev, release and release + fat LTO (opt-level s/z, i686, windows `finit`) are not built",
+               "leaf kernels: whether a wrong asm promise is hit depends on the code LLVM generates for the surrounding "
+               "function (which local lands in which stack slot); 20 shapes x 3 optimised builds are a sample of such "
+               "surroundings, not all of them (seed C18p: 9 of the 20 kernels see it; a wrong `preserves_flags` on "
+               "the comparing blocks changes the generated code but, with this compiler, never so that a flag "
+               "consumer sits behind the x87 comparison: not observable by any kernel). The crate's API offers no way "
+               "to keep the x87 register stack non-empty around an operation (every block pops what it pushes), so no "
+               "such variant exists",
                "theorems are about the spec_float model; correspondence with the inline assembly is sampled"]
 
 OPS = {"all": "OAll", "add": "OAdd", "sub": "OSub", "mul": "OMul", "div": "ODiv", "neg": "ONeg", "chain": "OChain",
@@ -162,6 +192,9 @@ def bits(x):
 
 
 def harness_line(c):
+    if c["op"] == "kern":
+        return "kern %s %s %s %s" % (c["kind"], c["a"], c["b"], " ".join(
+            "%d %s" % (len(c[k]), " ".join(c[k])) if c[k] else "0" for k in ("xs", "ys", "p")))
     if c["op"] == "trace":
         st = c["steps"]
         line = "trace %s %s %d %s" % (c["a"], c["b"], len(st), " ".join("%s %d %d" % (o, i, j) for (o, i, j) in st))
@@ -235,6 +268,8 @@ def trace_term(c, obs):
 
 
 def coq_term(c, obs, profile):
+    if c["op"] == "kern":
+        return kern_term(c, obs)
     if c["op"] == "trace":
         return trace_term(c, obs)
     a, b = int(c["a"], 16), int(c["b"], 16)
@@ -320,11 +355,15 @@ def fclass(h):
 
 
 def nontrivial(c, obs):
+    if c["op"] == "kern":
+        return len(c["xs"]) >= 2 and (not KERNELS[c["kind"]][0] or len(c["ys"]) >= 2)
     return fclass(c["a"]) in ("sub", "norm") and fclass(c["b"]) in ("sub", "norm") and \
         (int(c["a"], 16) & ~SIGN) != (int(c["b"], 16) & ~SIGN)
 
 
 def classify(c, obs):
+    if c["op"] == "kern":
+        return "kern-%s/%s" % (c["kind"], c.get("family", "replay"))
     if c["op"] == "trace":
         return "trace-%s/%s,%s" % (c.get("family", "replay"), fclass(c["a"]), fclass(c["b"]))
     return "%s/%s,%s" % (c["op"], fclass(c["a"]), fclass(c["b"]))
@@ -505,6 +544,374 @@ def random_pair(rng):
     return (a, sp) if rng.chance(1, 2) else (sp, a)
 
 
+# ---------------------------------------------------------------------------- leaf kernels (executor: src/kern.rs)
+# A kern case supplies the f64 inputs of one kernel.  Its observation line is `<T line of KERN_STEPS on (a, b)> K <kind>
+# v0 .. v5`; the six integers are compared HERE with exact rational arithmetic (every f80 operation = the exact
+# result rounded once to nearest-even at 64 bits, conversions f64 -> f80 exact, f80 -> f64 rounded at 53 bits; on the
+# small dyadic inputs nothing is ever rounded and the expected counters are plain integer facts), the T part goes to Coq
+# as an ordinary Trace.  A mismatch, a failed internal check of the executor (`X ...`: leaf kernel against its
+# step-by-step twin, a kernel that killed its process) or a panic make the case fail both Coq checks.
+from fractions import Fraction as _Fr
+
+KERN_STEPS = [["mul", 0, 1], ["add", 2, 0], ["sub", 3, 1]]
+KERN_BAD = "(Trace (W 0 0) (W 0 0) (RW 0 0 1) (RW 0 0 1) [TSI TAdd 9 9 (RW 0 0 1) 1 0])"
+# kind -> (uses ys, number of scalar arguments)
+KERNELS = {"line": (True, 3), "recur": (False, 3), "dot": (True, 0), "horner": (False, 1), "runsum": (False, 2),
+           "limit": (False, 2), "minmax": (False, 4), "absneg": (False, 1), "tof64": (False, 3), "mixed": (True, 2),
+           "inv2": (False, 2), "inv4": (True, 4), "inv5": (True, 5), "inv6": (True, 6), "inv8": (True, 8),
+           "carried3": (True, 0), "pcmp": (False, 2), "convonly": (False, 1), "sides": (True, 3),
+           "flags": (True, 2)}
+U64 = (1 << 64) - 1
+
+
+def fval(h):
+    return struct.unpack("<d", struct.pack("<Q", int(h, 16)))[0]
+
+
+def rnd_bits(q, prec):
+    """q rounded to nearest, ties to even, at `prec` significant bits (unbounded exponent)"""
+    if q == 0:
+        return q
+    sgn, a = (-1, -q) if q < 0 else (1, q)
+    sh = a.numerator.bit_length() - a.denominator.bit_length() - prec
+    t = a / (_Fr(2) ** sh)
+    while t >= (1 << prec):
+        sh += 1
+        t /= 2
+    while t < (1 << (prec - 1)):
+        sh -= 1
+        t *= 2
+    n = t.numerator // t.denominator
+    rem = t - n
+    if rem > _Fr(1, 2) or (rem == _Fr(1, 2) and n & 1):
+        n += 1
+    return sgn * n * (_Fr(2) ** sh)
+
+
+def r64(q):
+    return rnd_bits(q, 64)
+
+
+def enc_conv(h):
+    """(sign/exponent word, significand) of f80::from(f64::from_bits(h)); h zero or normal"""
+    v = int(h, 16)
+    s, e, f = v >> 63, (v >> 52) & 0x7FF, v & ((1 << 52) - 1)
+    if e == 0 and f == 0:
+        return (s << 15, 0)
+    assert 0 < e < 0x7FF
+    return ((s << 15) | (e - 1023 + 16383), (1 << 63) | (f << 11))
+
+
+def dec_raw(se, m):
+    """value of a finite raw, None for inf / NaN / pseudo-denormal encodings"""
+    e = se & 0x7FFF
+    if e == 0x7FFF:
+        return None
+    if m == 0:
+        return _Fr(0)
+    if e == 0 or not (m >> 63):
+        return None
+    v = _Fr(m) * (_Fr(2) ** (e - 16383 - 63))
+    return -v if se >> 15 else v
+
+
+def dec_f64(b):
+    e = (b >> 52) & 0x7FF
+    if e == 0x7FF:
+        return None
+    return _Fr(struct.unpack("<d", struct.pack("<Q", b))[0])
+
+
+def _min80(u, v):      # x87 sequence of f80::min: v when they compare equal
+    return u if v > u else v
+
+
+def _max80(u, v):
+    return u if v <= u else v
+
+
+def _xor(words):
+    a = b = 0
+    for (x, y) in words:
+        a ^= x
+        b ^= y
+    return a, b
+
+
+def kern_expected(c):
+    """what src/kern.rs must return: a list of ("i", integer) | ("raw", Fraction) [two integers of the line] |
+    ("f64", Fraction)"""
+    kind = c["kind"]
+    X = [_Fr(fval(h)) for h in c["xs"]]
+    Y = [_Fr(fval(h)) for h in c["ys"]]
+    ph = list(c["p"]) + ["3ff0000000000000"] * 8
+    P = [_Fr(fval(h)) for h in ph]
+    E = [enc_conv(h) for h in ph]
+    XY = list(zip(X, Y))
+    I = lambda n: ("i", n & U64)
+    R = lambda q: ("raw", q)
+    Z = I(0)
+    if kind == "line":
+        a, b, cc = P[:3]
+        return [I(sum(1 for (x, y) in XY if r64(r64(r64(a * x) + r64(b * y)) + cc) > 0)), Z, Z, Z, Z, Z]
+    if kind == "recur":
+        a, b, lim = P[:3]
+        acc, cnt = _Fr(0), 0
+        for k in X:
+            acc = r64(r64(acc * a) + r64(k * b))
+            cnt += acc > lim
+        return [I(cnt), R(acc), Z, Z, Z]
+    if kind == "dot":
+        acc, pos = _Fr(0), 0
+        for (x, y) in XY:
+            acc = r64(acc + r64(x * y))
+            pos += acc > 0
+        return [I(pos), R(acc), Z, Z, Z]
+    if kind == "horner":
+        acc = _Fr(0)
+        for cf in X:
+            acc = r64(r64(acc * P[0]) + cf)
+        return [Z, R(acc), I(E[0][0]), I(E[0][1]), Z]
+    if kind == "runsum":
+        f, lim = P[:2]
+        s, above, notabove = _Fr(0), 0, 0
+        for x in X:
+            s = r64(s + r64(x * f))
+            above += s > lim
+            notabove += s <= lim
+        return [I(above), R(s), I(notabove), I(E[0][0]), I(E[0][1])]
+    if kind == "limit":
+        scale, lim = P[:2]
+        vs = [r64(x * scale) for x in X]
+        return [I(sum(v < lim for v in vs)), I(sum(v == lim for v in vs)), I(sum(v > lim for v in vs)), Z,
+                I(E[1][0]), I(E[1][1])]
+    if kind == "minmax":
+        scale, off, mn, mx = P[:4]
+        moved = 0
+        for x in X:
+            v = r64(r64(x * scale) + off)
+            mn, mx = _min80(mn, v), _max80(mx, v)
+            moved += (mn == v or mx == v)
+        return [I(moved), R(mn), R(mx), Z]
+    if kind == "absneg":
+        bias = P[0]
+        acc, cnt = _Fr(0), 0
+        for x in X:
+            acc = r64(acc + abs(r64(x - bias)))
+            cnt += -acc < -abs(x)
+        return [I(cnt), R(acc), I(E[0][0]), I(E[0][1]), Z]
+    if kind == "tof64":
+        a, b = P[:2]
+        t = fval(ph[2])
+        s64, cnt, big = 0.0, 0, 0
+        for x in X:
+            v = r64(r64(a * x) + b)
+            d = float(v)
+            s64 += d * 0.5
+            if d > t and v > a and s64 > t * 0.25:
+                cnt += 1
+            if s64 * s64 >= t and b <= v:
+                big += 1
+        return [I(cnt), ("f64", _Fr(s64)), I(big), I(E[0][0]), I(E[0][1]), Z]
+    if kind == "mixed":
+        lo, hi = P[:2]
+        c0 = c1 = c2 = c3 = h = 0
+        for i, (x, y) in enumerate(XY):
+            v = r64(x + y)
+            odd = i & 1 == 1
+            if odd and v < lo:
+                c0 += 1
+            elif v == lo or (i % 3 == 0 and v >= hi):
+                c1 += 1
+            elif v <= hi and not odd:
+                c2 += 1
+            elif i > 4:
+                c3 += 1
+            h = (h * 31 + (c0 ^ (c2 << 1)) + i) & U64
+        return [I(c0), I(c1), I(c2), I(c3), I(h), I(E[1][0] ^ E[0][1])]
+    if kind == "inv2":
+        a, t = P[:2]
+        return [I(sum(r64(a * x) > t for x in X)), I(E[0][0]), I(E[0][1]), I(E[1][0]), I(E[1][1]), Z]
+    if kind == "inv4":
+        a = P[:4]
+        cnt = sum(r64(r64(r64(a[0] * x) + r64(a[1] * y)) + a[2]) > a[3] for (x, y) in XY)
+        return [I(cnt), I(_xor(E[:4])[0]), I(E[0][1] ^ E[1][1]), I(E[2][1] ^ E[3][1]), Z, Z]
+    if kind == "inv5":
+        a = P[:5]
+        cnt = sum(r64(r64(r64(a[0] * x) + r64(a[1] * y)) + a[2]) > r64(r64(a[3] * x) + a[4]) for (x, y) in XY)
+        return [I(cnt), I(_xor(E[:5])[0]), I(E[0][1] ^ E[1][1]), I(E[2][1] ^ E[3][1]), I(E[4][1]), Z]
+    if kind == "inv6":
+        a = P[:6]
+        cnt = low = 0
+        for (x, y) in XY:
+            l = r64(r64(r64(a[0] * x) + r64(a[1] * y)) + a[2])
+            r = r64(r64(a[3] * x) + r64(a[4] * y))
+            if r64(l * r) > a[5]:
+                cnt += 1
+            elif l < a[5]:
+                low += 1
+        return [I(cnt), I(low), I(_xor(E[:6])[0]), I(_xor(E[:3])[1]), I(_xor(E[3:6])[1]), Z]
+    if kind == "inv8":
+        a = P[:8]
+        cnt = eqs = 0
+        for (x, y) in XY:
+            l = r64(r64(r64(a[0] * x) + r64(a[1] * y)) + a[2])
+            r = r64(r64(r64(a[3] * x) + r64(a[4] * y)) + a[5])
+            cnt += r64(l * a[6]) > r64(r * a[7])
+            eqs += (l == r or _min80(l, a[6]) >= _max80(r, a[7]))
+        return [I(cnt), I(eqs), I(_xor(E[:8])[0]), I(_xor(E[:4])[1]), I(_xor(E[4:8])[1]), Z]
+    if kind == "carried3":
+        p, q, r = _Fr(0), _Fr(1), _Fr(0)
+        for (x, y) in XY:
+            p = r64(p + x)
+            q = -r64(q * y)
+            r = _max80(r, abs(r64(p - q)))
+        return [R(p), R(q), R(r)]
+    if kind == "pcmp":
+        pivot, scale = P[:2]
+        vs = [r64(x * scale) for x in X]
+        return [I(sum(v < pivot for v in vs)), I(sum(v == pivot for v in vs)), I(sum(v > pivot for v in vs)), Z,
+                I(E[0][0]), I(E[0][1])]
+    if kind == "convonly":
+        h = 0
+        for hx_ in c["xs"]:
+            h = (((h << 7) | (h >> 57)) & U64) ^ int(hx_, 16)
+        return [I(sum(x == P[0] for x in X)), I(h), I(E[0][0]), I(E[0][1]), Z, Z]
+    if kind == "flags":
+        lim, m = P[0], int(fval(ph[1]))
+        m = max(0, min(m, U64))                       # Rust `as u64` saturates
+        h = cnt = wide = 0
+        for i, ((x, y), bx, by) in enumerate(zip(XY, (int(v, 16) for v in c["xs"]), (int(v, 16) for v in c["ys"]))):
+            below, parity = i < m, (bx ^ by) & 1 == 0
+            s1 = bx if below else by
+            s2 = by >> 3 if below else bx >> 5
+            r1, r2, r3 = x < lim, y == lim, _min80(x, y) >= lim
+            sm, carry = (bx + by) & U64, (bx + by) >> 64
+            wide = (wide + ((sm << 1) | carry) + (r3 << 64)) & ((1 << 128) - 1)
+            h = (h * (3 if parity else 5) + (s1 ^ s2) + ((i if parity else m) + r1 + 2 * r2)) & U64
+            cnt += (r1 and below) or (r2 and parity) or (r3 and carry == 1)
+        return [I(cnt), I(h), I(wide & U64), I(wide >> 64), I(E[0][0]), I(E[0][1])]
+    if kind == "sides":
+        a, b, cc = P[:3]
+        pos = neg = on = h = 0
+        for i, (x, y) in enumerate(XY):
+            v = r64(r64(r64(a * x) + r64(b * y)) + cc)
+            if v > 0:
+                pos += 1
+                h = (h * 131 + i) & U64
+            elif v < 0:
+                neg += 1
+                h ^= (i << (neg & 7)) & U64
+            else:
+                on += 1
+        return [I(pos), I(neg), I(on), I(h), I(E[2][0]), I(E[2][1])]
+    raise KeyError(kind)
+
+
+def kern_split(obs):
+    """(T part, kind, six integers) of a kern observation line, None when it does not have that shape"""
+    if " K " not in obs:
+        return None
+    head, tail = obs.split(" K ", 1)
+    t = tail.split()
+    if len(t) != 7 or not all(v.isdigit() for v in t[1:]):
+        return None
+    return head, t[0], [int(v) for v in t[1:]]
+
+
+def kern_mismatch(c, obs):
+    """None when the kernel part of the line is what exact arithmetic says, else a description"""
+    sp = kern_split(obs)
+    if sp is None:
+        return "no kernel result: " + obs[:120]
+    _, kind, got = sp
+    if kind != c["kind"]:
+        return "kind echoed as " + kind
+    k = 0
+    for (tag, want) in kern_expected(c):
+        if tag == "i":
+            if got[k] != want:
+                return "integer %d of %s is %d, exact arithmetic says %d" % (k, kind, got[k], want)
+            k += 1
+        elif tag == "f64":
+            if dec_f64(got[k]) != want:
+                return "f64 result %d of %s has bits %#x, expected the value %s" % (k, kind, got[k], float(want))
+            k += 1
+        else:
+            if dec_raw(got[k], got[k + 1]) != want:
+                return "f80 result at %d of %s is (%d, %d), correctly rounded arithmetic says %s" % (
+                    k, kind, got[k], got[k + 1], want)
+            k += 2
+    return None
+
+
+def kern_term(c, obs):
+    if kern_mismatch(c, obs) is not None:
+        return KERN_BAD
+    return trace_term({"a": c["a"], "b": c["b"], "steps": KERN_STEPS}, kern_split(obs)[0])
+
+
+def kern_case(kind, xs, ys, p, family):
+    xs, ys, p = [hx(v) for v in xs], [hx(v) for v in ys], [hx(v) for v in p]
+    pool = p + xs + ys + [hx(bits(2.0)), hx(bits(3.0))]
+    return {"op": "kern", "kind": kind, "a": pool[0], "b": pool[1], "xs": xs, "ys": ys, "p": p, "family": family}
+
+
+def dyadic(rng, big=64, frac=4):
+    """bit pattern of a small dyadic rational k / 2^j"""
+    k = rng.range(-big, big)
+    return bits(k / float(1 << rng.below(frac + 1)))
+
+
+def moderate(rng):
+    """random 53-bit significand, exponent within +-8, random sign; now and then a short significand or zero"""
+    z = rng.below(12)
+    if z == 0:
+        return rng.choice([0, SIGN])
+    f = rng.next() if z > 3 else sparse(rng)
+    return mk(1023 + rng.range(-8, 8), f, rng.below(2))
+
+
+def kern_inputs(rng, kind, fam):
+    ys_used, np_ = KERNELS[kind]
+    one = (lambda: dyadic(rng)) if fam == "dyadic" else (lambda: moderate(rng))
+    n = rng.choice([0, 1, 2, 3, 4, 5, 7, 8, 13, 24]) if rng.chance(1, 2) else rng.range(3, 12)
+    xs = [one() for _ in range(n)]
+    ys = [one() for _ in range(n if rng.chance(5, 6) else rng.range(0, n + 2))] if ys_used else []
+    p = [one() for _ in range(np_)]
+    small = (lambda: dyadic(rng, 4, 1)) if fam == "dyadic" else (lambda: mk(1023 + rng.range(-1, 1), rng.next(), rng.below(2)))
+    if kind == "flags":
+        p[1] = bits(float(rng.range(0, n + 1)))
+        if xs and rng.chance(1, 2):
+            p[0] = rng.choice(xs + ys)
+    if kind in ("recur", "horner"):            # keep the recurrences far from the ends of the format
+        p[0] = small()
+    if kind in ("limit", "pcmp", "inv2", "convonly") and xs and rng.chance(1, 2):
+        # make the equality branch reachable: the limit / pivot is one of the scaled inputs
+        if kind == "convonly":
+            p[0] = rng.choice(xs)
+        elif fam == "dyadic":
+            sc = bits(rng.choice([1.0, 2.0, 0.5, -4.0]))
+            v = fval(hx(rng.choice(xs))) * fval(hx(sc))
+            if kind == "limit":
+                p[0], p[1] = sc, bits(v)
+            elif kind == "pcmp":
+                p[0], p[1] = bits(v), sc
+            else:
+                p[0], p[1] = sc, bits(v)
+    return kern_case(kind, xs, ys, p, fam)
+
+
+def kerns(rng, tier):
+    out = []
+    per = 8 if tier == "quick" else 160
+    for kind in sorted(KERNELS):
+        for fam in ("dyadic", "moderate"):
+            for _ in range(per):
+                out.append(kern_inputs(rng, kind, fam))
+    return out
+
+
 ONE_BITS = 0x3FF0000000000000
 F64_MAX = 0x7FEFFFFFFFFFFFFF
 
@@ -667,6 +1074,7 @@ def generate(rng, tier):
         cases.append({"op": "all", "a": hx(a), "b": hx(b)})
     cases += routed(rng, list(cases), B, tier)
     cases += traces(rng, tier, B)
+    cases += kerns(rng.fork("kern"), tier)
     return cases
 
 
@@ -687,8 +1095,30 @@ def shrink_operands(c):
     return out
 
 
+def shrink_kern(c):
+    out = []
+    for key in ("xs", "ys"):
+        v = c[key]
+        if len(v) > 1:
+            out.append(dict(c, **{key: v[:len(v) // 2]}))
+            out.append(dict(c, **{key: v[len(v) // 2:]}))
+        for k in range(min(len(v), 8)):
+            out.append(dict(c, **{key: v[:k] + v[k + 1:]}))
+    simple = [hx(bits(1.0)), hx(bits(2.0)), hx(0)]
+    for key in ("p", "xs", "ys"):
+        v = c[key]
+        for k in range(min(len(v), 8)):
+            for w in simple:
+                if v[k] != w:
+                    out.append(dict(c, **{key: v[:k] + [w] + v[k + 1:]}))
+                    break
+    return out
+
+
 def shrink(c):
     out = []
+    if c["op"] == "kern":
+        return shrink_kern(c)
     if c["op"] == "trace":
         st = [tuple(t) for t in c["steps"]]
         if c.get("route"):
@@ -771,7 +1201,8 @@ def extra(ctx, known):
     cases = generate(_driver.Rng(ctx.seed).fork(ID), ctx.tier)
     routes = {}
     for c in cases:
-        k = "trace-" + c.get("family", "") if c["op"] == "trace" else "route-" + (c.get("route") or "plain")
+        k = ("kern-" + c["kind"] if c["op"] == "kern" else
+             "trace-" + c.get("family", "") if c["op"] == "trace" else "route-" + (c.get("route") or "plain"))
         routes[k] = routes.get(k, 0) + 1
     cov["generated_cases_by_entry_point"] = routes
     lines = [harness_line(c) for c in cases]
@@ -864,6 +1295,11 @@ def same_obs(x, y):
     """equal token by token; two NaN raws / NaN bit patterns count as equal"""
     if x == y:
         return True
+    if " K " in x or " K " in y:          # leaf kernels: `<T line> K <kind> v0 .. v5`, the integers exactly
+        if " K " not in x or " K " not in y:
+            return False
+        (hx_, kx), (hy_, ky) = x.split(" K ", 1), y.split(" K ", 1)
+        return kx == ky and same_obs(hx_, hy_)
     tx, ty = x.split(), y.split()
     if len(tx) != len(ty) or not tx:
         return False
@@ -933,7 +1369,14 @@ MANIFEST = {
             "program step, and straight-line programs of up to "
             "about twenty steps (Coq constructor Trace, c18_spec_trace_sound: an accepted program's every step is the "
             "model's operation on the observed operand raws) carry every operator, neg, abs, min, max and the relations "
-            "to arbitrary extended-format operands, f80 overflow and f80 denormals included. A release build with fat "
+            "to arbitrary extended-format operands, f80 overflow and f80 denormals included. The operations are "
+            "also exercised INLINED into 20 leaf kernels (no call inside: dot product, Horner, running sums with "
+            "loop-invariant f80 factors, counting against an f80 limit, min/max scans, 2-8 live invariants, f80 mixed "
+            "with f64/SSE arithmetic and integer flags) whose f80 locals live in the red zone across conversions, "
+            "relations, min, max, abs, neg; each kernel must agree bit for bit with the same quantity computed step "
+            "by step through the interpreter (values through memory), with exact rational arithmetic in the plugin, "
+            "and across the debug / release / lto builds (this is what sees an asm block whose options(nostack) - or "
+            "pure / nomem / preserves_flags - promise is wrong only under inlining). A release build with fat "
             "LTO and a process that never calls f80_init must reproduce the debug observations.",
     "level_note": "Trusted: Coq kernel + vm_compute, classical-real axioms of the standard library (through Flocq), "
                   "the Rust executor and the Python case printer; x87 semantics are assumed to be the IEEE semantics "
